@@ -45,7 +45,7 @@ FLOATS = st.one_of(
     st.floats(min_value=-1000, max_value=1000, allow_nan=False).map(lambda x: round(x, 3)),
     st.sampled_from([0.0, -0.0, -0.5, -1.5, 5.56, 1e22, 1e-7, 123456789.123456789, -2.675, 0.1, 1e16, 5e-324, 1.7976931348623157e308]),
 )
-INTS = st.one_of(st.integers(-1000, 1000), st.integers(), st.sampled_from([0, -1, 2 ** 63, -2 ** 64, 10 ** 30]))
+INTS = st.one_of(st.integers(-1000, 1000), st.integers(), st.sampled_from([0, -1, 2 ** 63, -2 ** 64, 10 ** 30, -(2 ** 53) - 1, -9007199254740993, -(10 ** 18) - 7, 2 ** 53 + 1, -(2 ** 63) - 1]))
 
 
 @st.composite
